@@ -56,6 +56,16 @@ type BlockSpec struct {
 	Height        *uint64     `json:"height"`
 	Entries       []EntrySpec `json:"entries"`
 	RewardsFrames int         `json:"rframes"` // 0 = no rewards (dummy CID)
+	// DropRewardsFrame > 0: that continuation frame of the rewards payload is linked but NOT written into the CAR (fault)
+	DropRewardsFrame int `json:"droprframe"`
+}
+
+// RewardTruth is one entry of a block's rewards list (protobuf confirmed_block.Rewards)
+type RewardTruth struct {
+	Pubkey      string
+	Lamports    int64
+	PostBalance uint64
+	RewardType  int
 }
 
 type EpochSpec struct {
@@ -97,7 +107,8 @@ type BlockTruth struct {
 	Cid         cid.Cid
 	EntryHashes [][]byte
 	Txs         []*TxTruth
-	Rewards     []byte // uncompressed rewards payload
+	Rewards     []byte // uncompressed rewards payload (protobuf confirmed_block.Rewards)
+	RewardList  []RewardTruth
 	Section     int
 }
 
@@ -151,6 +162,8 @@ type builder struct {
 	out    *Built
 	offset uint64
 	wide   bool // next put: sha2-512 CID
+	// dropFrame > 0: frames() computes the CID of that continuation frame but does not write it (a frame missing from the CAR)
+	dropFrame int
 }
 
 func encode(v any) []byte {
@@ -251,6 +264,8 @@ func (b *builder) frames(payload []byte, n int) ipldbindcode.DataFrame {
 		fr := ipldbindcode.DataFrame{Kind: 6, Hash: pp(hash), Index: pp(i), Total: pp(n), Data: chunks[i], Next: &np}
 		if i == 0 {
 			first = fr
+		} else if i == b.dropFrame {
+			cids[i] = cidOf(encode(&fr))
 		} else {
 			cids[i], _ = b.put(6, &fr)
 		}
@@ -308,13 +323,26 @@ func build(spec EpochSpec, path string, hdr uint64) (*Built, error) {
 		}
 		rewardsLink := cidlink.Link{Cid: DummyCID}
 		if bs.RewardsFrames > 0 {
-			raw := det(spec.Seed, "rewards", int(bs.Slot), 64+bs.RewardsFrames*700)
+			// a protobuf rewards list (what the server parses for the JSON answer), long enough for the wanted frame count
+			var rw confirmed_block.Rewards
+			for k := 0; k < 2+bs.RewardsFrames*11; k++ {
+				r := RewardTruth{Pubkey: Account(spec.Seed, 100+k+int(bs.Slot%50)).String(), Lamports: int64(k*1000) + int64(bs.Slot%1000) + 1,
+					PostBalance: 1_000_000_000 + uint64(k)*7 + bs.Slot%97, RewardType: 1 + k%4}
+				bt.RewardList = append(bt.RewardList, r)
+				rw.Rewards = append(rw.Rewards, &confirmed_block.Reward{Pubkey: r.Pubkey, Lamports: r.Lamports, PostBalance: r.PostBalance, RewardType: confirmed_block.RewardType(r.RewardType)})
+			}
+			raw, err := proto.Marshal(&rw)
+			if err != nil {
+				return nil, err
+			}
 			bt.Rewards = raw
 			z, err := tooling.CompressZstd(raw)
 			if err != nil {
 				return nil, err
 			}
+			b.dropFrame = bs.DropRewardsFrame
 			first := b.frames(z, bs.RewardsFrames)
+			b.dropFrame = 0
 			rc, _ := b.put(5, &ipldbindcode.Rewards{Kind: 5, Slot: int(bs.Slot), Data: first})
 			rewardsLink = cidlink.Link{Cid: rc}
 		}
